@@ -210,6 +210,7 @@ class Ctx:
         self.mod_classes = mod_classes or {}      # class name -> {method name -> FunctionDef}
         self.inlinable = inlinable                # {(modname, class or None, name)}
         self.method_fp = {}
+        self.ancestors = {}                       # class -> ancestor classes defined in the same module
 
 
 class FuncGraph:
@@ -221,7 +222,10 @@ class FuncGraph:
         self.tuples = {}
         self.parent = {}
         self.probing = None
+        self.consts = {}
+        self.bound = {}
         self._outside_cache = {}
+        self.clsvns = set()
         self.selfvns = set()      # value numbers known to be the instance / class the method is bound to
         self.pre = {}             # hash -> parts, for phi-normalisation
         self.phimemo = {}
@@ -339,7 +343,10 @@ class FuncGraph:
         return m(n, st)
 
     def e_Constant(self, n, st):
-        return self.h("const", type(n.value).__name__, repr(n.value))
+        v = self.h("const", type(n.value).__name__, repr(n.value))
+        if isinstance(n.value, str):
+            self.consts[v] = n.value
+        return v
 
     def e_Name(self, n, st):
         if n.id in st.env:
@@ -354,7 +361,9 @@ class FuncGraph:
         m = self.resolve_method(n, st)
         if m is not None:
             self.inlined.add((m[1], m[0].name))
-            return self.h("boundmethod", "-", self.method_fingerprint(m[0], m[1]))
+            vn = self.h("boundmethod", "-", self.method_fingerprint(m[0], m[1]))
+            self.bound[vn] = (m[0], m[1], m[2], None)
+            return vn
         return self.gname(n.id)
 
     def e_Attribute(self, n, st):
@@ -367,7 +376,9 @@ class FuncGraph:
         if m is not None:
             callee, cls, kind = m
             self.inlined.add((cls, callee.name))
-            return self.h("boundmethod", b if kind in ("method", "class") else "-", self.method_fingerprint(callee, cls))
+            vn = self.h("boundmethod", b if kind in ("method", "class") else "-", self.method_fingerprint(callee, cls))
+            self.bound[vn] = (callee, cls, kind, b)
+            return vn
         v = self.node(st, "attr", b, n.attr, heap_read=True)
         self.union(v, b)
         return v
@@ -376,7 +387,7 @@ class FuncGraph:
         b = self.expr(n.value, st)
         i = self.expr(n.slice, st)
         sliced = isinstance(n.slice, ast.Slice) or (isinstance(n.slice, ast.Tuple) and any(isinstance(e, ast.Slice) for e in n.slice.elts))
-        v = self.node(st, "item", b, i, identity=sliced, heap_read=True)
+        v = self.node(st, "item", b, i, heap_read=True)       # a slice shares (or copies) the storage of b: same region
         self.union(v, b)
         return v
 
@@ -423,12 +434,26 @@ class FuncGraph:
         tail = ast.BoolOp(op=n.op, values=rest) if len(rest) > 1 else rest[0]
         s1, s2 = st.copy(), st.copy()
         other = self.expr(tail, s1)
-        c = self.node(st, "truth", first)
+        c, flip = self.canon_test(first)
+        # a comparison by identity / membership (or a `not`) is a real bool: its own value is False in the arm where it
+        # is falsy and True in the other one
+        pf = self.pre.get(first, ())
+        p = self.pre.get(pf[1], ()) if len(pf) == 2 and pf[0] == "n" else ()
+        boolean = bool(p) and ((p[0] == "un" and p[1] == "Not") or (p[0] == "cmp" and len(p) > 4 and p[4] == "|" and p[2] in ("Is", "IsNot", "In", "NotIn")))
+        TRUE, FALSE = self.h("const", "bool", "True"), self.h("const", "bool", "False")
         if isinstance(n.op, ast.And):
+            keep = FALSE if boolean else first
+            if flip:
+                self.merge(st, c, s2, s1, None)
+                return self.phi(c, keep, other)
             self.merge(st, c, s1, s2, None)
-            return self.phi(c, other, first)
+            return self.phi(c, other, keep)
+        keep = TRUE if boolean else first
+        if flip:
+            self.merge(st, c, s1, s2, None)
+            return self.phi(c, other, keep)
         self.merge(st, c, s2, s1, None)
-        return self.phi(c, first, other)
+        return self.phi(c, keep, other)
 
     def e_Compare(self, n, st):
         if len(n.ops) == 1 and isinstance(n.ops[0], (ast.In, ast.NotIn)):
@@ -489,13 +514,18 @@ class FuncGraph:
 
     def format_call(self, n, st):
         """'literal {} {x:5.2f}'.format(a, x=b) → the f-string with the same fields, or None."""
-        if not (isinstance(n.func, ast.Attribute) and n.func.attr == "format" and isinstance(n.func.value, ast.Constant)
-                and isinstance(n.func.value.value, str)):
+        if not (isinstance(n.func, ast.Attribute) and n.func.attr == "format"):
+            return None
+        if isinstance(n.func.value, ast.Constant) and isinstance(n.func.value.value, str):
+            template = n.func.value.value
+        elif isinstance(n.func.value, ast.Name) and self.consts.get(st.env.get(n.func.value.id)) is not None:
+            template = self.consts[st.env[n.func.value.id]]          # a literal held in a temporary
+        else:
             return None
         if any(isinstance(a, ast.Starred) for a in n.args) or any(k.arg is None for k in n.keywords):
             return None
         try:
-            fields = list(string.Formatter().parse(n.func.value.value))
+            fields = list(string.Formatter().parse(template))
         except ValueError:
             return None
         auto, idxs = 0, []
@@ -540,11 +570,16 @@ class FuncGraph:
                 self.tuples[vn] = []
                 return vn
             return self.node(st, n.func.id, identity=True)
+        if isinstance(n.func, ast.Name) and n.func.id == "dict" and not n.args and n.keywords and all(k.arg for k in n.keywords) \
+                and "dict" not in st.env and "dict" not in self.ctx.module_names:
+            return self.e_Dict(ast.Dict(keys=[ast.Constant(value=k.arg) for k in n.keywords], values=[k.value for k in n.keywords]), st)
+        if isinstance(n.func, ast.Name) and n.func.id == "slice" and 1 <= len(n.args) <= 3 and not n.keywords \
+                and "slice" not in st.env and "slice" not in self.ctx.module_names:
+            a = list(n.args)
+            lo, up, step = (None, a[0], None) if len(a) == 1 else (a + [None])[:3]
+            return self.e_Slice(ast.Slice(lower=lo, upper=up, step=step), st)
         if isinstance(n.func, ast.Name) and n.func.id in ("locals", "globals", "exec", "eval", "vars"):
             raise Unsupported(n.func.id)
-        inl = self.try_inline(n, st)
-        if inl is not None:
-            return inl
         recv = None
         if isinstance(n.func, ast.Attribute):
             recv = self.expr(n.func.value, st)
@@ -552,19 +587,9 @@ class FuncGraph:
         else:
             f = self.expr(n.func, st)
         args = [self.expr(a, st) for a in n.args]
-        kws = sorted(((k.arg or "**"), self.expr(k.value, st)) for k in n.keywords)
-        cls = self.callee_class(f, n.func)
-        kwvals = [v for _, v in kws]
-        callvn = self.node(st, "call", f, *args, *(f"{k}={v}" for k, v in kws), "kw", *kwvals, identity=(cls != "value"), heap_read=(cls == "impure"))
-        if cls == "impure":
-            self.effect(st, "call", callvn)
-            self.touch(st, recv, *args, *kwvals)
-        if cls != "value":
-            for x in [recv] + args + kwvals:
-                if x is not None:
-                    self.union(callvn, x)
-        return callvn
-
+        kws = [(k.arg, self.expr(k.value, st)) for k in n.keywords]
+        plain = not any(isinstance(x, ast.Starred) for x in n.args) and all(k.arg for k in n.keywords)
+        return self.call_value(f, n.func, recv, args, kws, st, plain)
 
     # ---- private helpers: resolution, inlining ---------------------------------------------------------------------------
     def resolve_method(self, fn, st):
@@ -573,11 +598,11 @@ class FuncGraph:
         if isinstance(fn, ast.Attribute) and isinstance(fn.value, ast.Name):
             base = fn.value.id
             if base == self.self_name and self.cls_name and st.env.get(base) in self.selfvns:
-                key = (ctx.modname, self.cls_name, fn.attr)
-                if key in ctx.inlinable:
-                    callee = ctx.mod_classes.get(self.cls_name, {}).get(fn.attr)
-                    if callee is not None:
-                        return callee, self.cls_name, _method_kind(callee)
+                for c in [self.cls_name] + ctx.ancestors.get(self.cls_name, []):
+                    if (ctx.modname, c, fn.attr) in ctx.inlinable:
+                        callee = ctx.mod_classes.get(c, {}).get(fn.attr)
+                        if callee is not None:
+                            return callee, c, _method_kind(callee)
             elif base in ctx.mod_classes and base not in st.env:
                 key = (ctx.modname, base, fn.attr)
                 if key in ctx.inlinable:
@@ -599,44 +624,41 @@ class FuncGraph:
             self.ctx.method_fp[key] = g.fingerprint()
         return self.ctx.method_fp[key]
 
-    def try_inline(self, n, st):
-        m = self.resolve_method(n.func, st)
-        if m is None or self.depth >= MAX_INLINE_DEPTH:
+    def inline_bound(self, target, argv, kwv, st):
+        """Evaluate a resolved private helper in place.  argv / kwv are the (already evaluated) arguments."""
+        callee, cls, kind, recv = target
+        if self.depth >= MAX_INLINE_DEPTH:
             return None
-        callee, cls, kind = m
         key = (cls, callee.name)
         if key in self.stack:
             return None
         a = callee.args
-        if a.vararg or a.kwarg or any(isinstance(x, ast.Starred) for x in n.args) or any(k.arg is None for k in n.keywords):
+        if a.vararg or a.kwarg or kind in ("property", "other"):
             return None
         if any(isinstance(x, (ast.Yield, ast.YieldFrom, ast.Await, ast.Global, ast.Nonlocal)) for x in ast.walk(callee)):
-            return None
-        if kind in ("property", "other"):
             return None
         params = [x.arg for x in a.posonlyargs + a.args]
         env = {}
         if kind == "method":
-            env[params[0]] = self.expr(n.func.value, st)
+            if recv is None or not params:
+                return None
+            env[params[0]] = recv
+            self.selfvns.add(recv)
             params = params[1:]
-        elif kind == "class":
-            recv = self.expr(n.func.value, st)
-            env[params[0]] = recv if _is_classmethod(self.f) else self.node(st, "typeof", recv)
+        elif kind in ("class", "class-on-class"):
+            if recv is None or not params:
+                return None
+            env[params[0]] = recv if (recv.startswith("G:") or recv in self.clsvns) else self.node(st, "typeof", recv)
             self.selfvns.add(env[params[0]])
+            self.clsvns.add(env[params[0]])
             params = params[1:]
-        elif kind == "class-on-class":
-            env[params[0]] = "G:" + n.func.value.id
-            self.selfvns.add(env[params[0]])
-            params = params[1:]
-        if len(n.args) > len(params):
+        if len(argv) > len(params):
             return None
-        argv = [self.expr(x, st) for x in n.args]
-        kwv = [(k.arg, self.expr(k.value, st)) for k in n.keywords]
         for p, v in zip(params, argv):
             env[p] = v
         kwonly = [x.arg for x in a.kwonlyargs]
         for k, v in kwv:
-            if k in env or (k not in params and k not in kwonly):
+            if k is None or k in env or (k not in params and k not in kwonly):
                 return None
             env[k] = v
         pos_all = [x.arg for x in a.posonlyargs + a.args]
@@ -650,7 +672,7 @@ class FuncGraph:
         for nm in assigned_names(callee.body):
             env.setdefault(nm, None)
         sub = State(env, st.heap, st.exit, dict(st.occ), dict(st.ver))
-        saved = (self.f, self.cls_name, self.self_name, self.callee, self.nest, self.outer_env, self.stack, self.depth)
+        saved = (self.f, self.cls_name, self.self_name, self.callee, self.nest, self.outer_env, self.stack, self.depth, self._outside_cache)
         self.f, self.cls_name = callee, cls
         first = (a.posonlyargs + a.args)[:1]
         self.self_name = first[0].arg if first and kind in ("method", "class", "class-on-class") else None
@@ -662,12 +684,45 @@ class FuncGraph:
         except Unsupported:
             return None
         finally:
-            self.f, self.cls_name, self.self_name, self.callee, self.nest, self.outer_env, self.stack, self.depth = saved
+            self.f, self.cls_name, self.self_name, self.callee, self.nest, self.outer_env, self.stack, self.depth, self._outside_cache = saved
         if not (sub.dead and sub.dkind == "iret"):
             return None            # never returns normally: leave it opaque
         st.heap, st.exit, st.occ, st.ver = sub.heap, sub.exit, sub.occ, sub.ver
         self.inlined.add(key)
         return sub.dval
+
+    def liftable(self, f):
+        if f in self.bound:
+            return True
+        p = self.pre.get(f)
+        return bool(p) and p[0] == "phi" and len(p) == 4 and self.liftable(p[2]) and self.liftable(p[3])
+
+    def call_value(self, f, fnode, recv, argv, kws, st, plain):
+        """The value (and effects) of calling f.  A private helper is evaluated in place; a callee chosen by a condition
+        (`func = self._a if c else self._b; func(x)`) is the choice between the two calls."""
+        if plain and f in self.bound:
+            r = self.inline_bound(self.bound[f], argv, kws, st)
+            if r is not None:
+                return r
+        p = self.pre.get(f)
+        if plain and p and p[0] == "phi" and len(p) == 4 and self.liftable(f):
+            s1, s2 = st.copy(), st.copy()
+            r1 = self.call_value(p[2], fnode, recv, argv, kws, s1, plain)
+            r2 = self.call_value(p[3], fnode, recv, argv, kws, s2, plain)
+            self.merge(st, p[1], s1, s2, None)
+            return self.phi(p[1], r1, r2)
+        cls = self.callee_class(f, fnode)
+        kwvals = [v for _, v in kws]
+        skws = sorted(((k or "**"), v) for k, v in kws)
+        callvn = self.node(st, "call", f, *argv, *(f"{k}={v}" for k, v in skws), "kw", *[v for _, v in skws], identity=(cls != "value"), heap_read=(cls == "impure"))
+        if cls == "impure":
+            self.effect(st, "call", callvn)
+            self.touch(st, recv, *argv, *kwvals)
+        if cls != "value":
+            for x in [recv] + list(argv) + kwvals:
+                if x is not None:
+                    self.union(callvn, x)
+        return callvn
 
     def e_Lambda(self, n, st):
         return self.closure(n, n.args, [ast.Return(value=n.body)], st, "lambda")
@@ -783,8 +838,12 @@ class FuncGraph:
                 self._merge_live(st, c, s1, s2)
                 st.dead, st.dkind, st.dval = True, kind, dval
                 return
-            if "iret" in (s1.dkind, s2.dkind):
-                live, dead, pol = (s2, s1, "T") if s2.dkind == "iret" else (s1, s2, "F")
+            # different terminators: the one that is the normal completion of the enclosing construct plays the live
+            # arm (continue > return > break > raise), the other one goes to its exit chain — exactly what happens
+            # when the same code is written with an assignment in the arms and one terminator after the `if`
+            rank = {"continue": 4, "iret": 3, "ret": 3, "break": 2, "raise": 1, "mixed": 0}
+            if rank[s1.dkind] != rank[s2.dkind]:
+                live, dead, pol = (s2, s1, "T") if rank[s2.dkind] > rank[s1.dkind] else (s1, s2, "F")
                 fin = self.final(dead, loop)
                 st.take(live)
                 st.exit = self.h("exit", c, pol, fin, live.exit)
@@ -846,7 +905,9 @@ class FuncGraph:
             if isinstance(test.op, ast.And):
                 return self.branch(first, st, lambda s: self.branch(tail, s, then_fn, else_fn, loop), else_fn, loop)
             return self.branch(first, st, then_fn, lambda s: self.branch(tail, s, then_fn, else_fn, loop), loop)
-        c = self.expr(test, st)
+        c, flip = self.canon_test(self.expr(test, st))
+        if flip:
+            then_fn, else_fn = else_fn, then_fn
         s1, s2 = st.copy(), st.copy()
         r1 = then_fn(s1)
         r2 = else_fn(s2)
@@ -854,6 +915,28 @@ class FuncGraph:
         if r1 is None and r2 is None:
             return None
         return self.phi(c, r1, r2)
+
+    def canon_test(self, c):
+        """Value-level normal form of a condition: `not x` → x (arms swapped); `is not` / `not in` / `!=` → the positive
+        comparison (arms swapped) — also when the condition was computed into a temporary first."""
+        flip = False
+        compl = {"IsNot": "Is", "NotIn": "In", "NotEq": "Eq"}
+        while True:
+            p = self.pre.get(c)
+            if not (p and p[0] == "n" and len(p) == 2):
+                break
+            key = self.pre.get(p[1])
+            if not key:
+                break
+            if key[0] == "un" and key[1] == "Not":
+                c, flip = key[2], not flip
+                continue
+            if key[0] == "cmp" and len(key) > 4 and key[4] == "|" and key[2] in compl:
+                c = self.h("n", self.h("cmp", key[1], compl[key[2]], key[3], *key[4:]))
+                flip = not flip
+                continue
+            break
+        return c, flip
 
     # ---- statements ---------------------------------------------------------------------------
     def block(self, stmts, st, loop):
@@ -1214,6 +1297,8 @@ class FuncGraph:
                 st.env[x.arg] = self.h("param", x.arg)
             if self.self_name:
                 self.selfvns.add(st.env[self.self_name])
+                if _is_classmethod(self.f):
+                    self.clsvns.add(st.env[self.self_name])
             for nm in assigned_names(self.f.body):
                 st.env.setdefault(nm, None)
             is_gen = any(isinstance(x, (ast.Yield, ast.YieldFrom)) for x in _walk_own(self.f))
@@ -1412,22 +1497,33 @@ def module_fingerprints(tree, modname, is_pkg=False, known_modules=(), inlinable
                         loggers.add(t.id)
     mod_funcs, mod_classes = module_tables(tree)
     ctx = Ctx(modname, is_pkg, imports, module_names, loggers, known_modules, mod_funcs, mod_classes, inlinable)
+    ctx.ancestors = same_module_ancestors(tree)
     funcs, residue, inlined = {}, [], set()
 
     def add(key, fnode, cls):
-        k, i = key, 1
-        while k in funcs:
-            i += 1
-            k = f"{key}#{i}"
         g = FuncGraph(fnode, ctx, cls)
-        funcs[k] = g.fingerprint()
+        funcs[key] = g.fingerprint()          # a later definition of the same name shadows the earlier one
         inlined.update(g.inlined)
 
     def is_doc(st):
         return isinstance(st, ast.Expr) and isinstance(st.value, ast.Constant) and isinstance(st.value.value, str)
 
+    def scope_fp(stmts):
+        """Fingerprint of the non-function statements of a module or class body: what each name ends up bound to, and
+        the effects on the way (names resolved through the imports, temporaries transparent)."""
+        names = assigned_names(stmts)
+        ret = ast.Return(value=ast.Dict(keys=[ast.Constant(value=n) for n in sorted(names)],
+                                        values=[ast.Name(id=n, ctx=ast.Load()) for n in sorted(names)]))
+        fake = ast.FunctionDef(name="<scope>", args=ast.arguments(posonlyargs=[], args=[], vararg=None, kwonlyargs=[], kw_defaults=[], kwarg=None, defaults=[]),
+                               body=list(stmts) + [ret], decorator_list=[], returns=None, type_comment=None, lineno=0, col_offset=0)
+        return FuncGraph(fake, ctx, None).fingerprint()
+
     def klass(c, prefix):
         residue.append(("class", prefix + c.name, [ast.unparse(b) for b in c.bases], [ast.unparse(k) for k in c.keywords], [ast.unparse(d) for d in c.decorator_list]))
+        cstmts = [m for m in c.body if not isinstance(m, (ast.FunctionDef, ast.AsyncFunctionDef, ast.ClassDef, ast.Pass)) and not is_doc(m)
+                  and not (isinstance(m, ast.AnnAssign) and m.value is None)]
+        if cstmts:
+            residue.append(("cbody", prefix + c.name, scope_fp(cstmts)))
         for m in c.body:
             if isinstance(m, (ast.FunctionDef, ast.AsyncFunctionDef)):
                 setter = any(ast.unparse(d).endswith((".setter", ".deleter")) for d in m.decorator_list)
@@ -1439,7 +1535,7 @@ def module_fingerprints(tree, modname, is_pkg=False, known_modules=(), inlinable
             elif isinstance(m, ast.AnnAssign) and m.value is None:
                 continue
             else:
-                residue.append(("cstmt", prefix + c.name, _residue_text(m)))
+                continue                   # class-level statement: in the class body fingerprint above
 
     def top(st):
         if isinstance(st, (ast.FunctionDef, ast.AsyncFunctionDef)):
@@ -1454,9 +1550,12 @@ def module_fingerprints(tree, modname, is_pkg=False, known_modules=(), inlinable
         elif isinstance(st, ast.Assign) and isinstance(st.value, ast.Call) and ast.unparse(st.value.func) in ("logging.getLogger", "getLogger"):
             return                     # a module logger
         else:
-            residue.append(("stmt", _residue_text(st)))
+            mstmts.append(st)
+    mstmts = []
     for st in tree.body:
         top(st)
+    if mstmts:
+        residue.append(("mbody", scope_fp(mstmts)))
     exported = sorted((k, v) for k, v in imports.items() if is_pkg)
     return {"funcs": funcs, "residue": _h(repr(residue), repr(exported)),
             "inlined": sorted(f"{c}.{n}" if c else n for c, n in inlined)}
@@ -1468,6 +1567,20 @@ def _residue_text(st):
     if isinstance(s, ast.AnnAssign) and s.value is not None:
         s = ast.Assign(targets=[s.target], value=s.value, lineno=0, col_offset=0)
     return ast.unparse(s)
+
+
+def same_module_ancestors(tree):
+    bases = {c.name: [b.id for b in c.bases if isinstance(b, ast.Name)] for c in tree.body if isinstance(c, ast.ClassDef)}
+    out = {}
+    for c in bases:
+        seen, todo = [], list(bases[c])
+        while todo:
+            b = todo.pop(0)
+            if b in bases and b not in seen and b != c:
+                seen.append(b)
+                todo += bases[b]
+        out[c] = seen
+    return out
 
 
 # ---- which private helpers may be evaluated in place ---------------------------------------------------------------------------
@@ -1494,7 +1607,9 @@ def inlinable_helpers(trees, subclass_defines):
             and not (n.startswith("__") and n.endswith("__"))}
     bad = set()
     for mod, tree in trees.items():
-        def visit(n, cls, first):
+        anc = same_module_ancestors(tree)
+
+        def visit(n, cls, first, anc=anc, mod=mod):
             if isinstance(n, ast.ClassDef):
                 for c in ast.iter_child_nodes(n):
                     visit(c, n.name if cls is None else "<nested>", None)
@@ -1510,7 +1625,7 @@ def inlinable_helpers(trees, subclass_defines):
                 dm, dc = cand[n.attr]
                 ok = False
                 if isinstance(n.value, ast.Name) and dc is not None and dm == mod:
-                    if cls == dc and n.value.id == first:
+                    if (cls == dc or dc in anc.get(cls, [])) and n.value.id == first:
                         ok = True
                     elif n.value.id == dc:
                         ok = True
